@@ -1002,8 +1002,6 @@ Proof.
   intros n root ek x Hwf Hroot Hin Hne. rewrite ext_keys_paths in Hin.
   apply in_map_iff in Hin. destruct Hin as ([l y] & Heq & Hin). simpl in Heq. inversion Heq; subst.
   destruct l as [|k l]; [simpl in Hne; congruence|].
-  unfold rel_key.
-  change (String.append EmptyString (join (pkey root :: fst (k :: l, y)))) with (join (pkey root :: k :: l)).
-  rewrite join_cons2, after_dot_append by exact Hroot.
+  unfold rel_key. fold (sdot (join (k :: l))). rewrite after_dot_append by exact Hroot.
   eapply get_path; eauto. discriminate.
 Qed.
